@@ -302,6 +302,17 @@ func (i *impl) report() string {
 			fmt.Sscanf(ah[b], "%d:", &y)
 			return x < y
 		})
+		// across an outage a chunk can be transmitted (and then acknowledged) twice - see above; identical results are
+		// reported once, the duplicates counted
+		var dd []string
+		for k, a := range ah {
+			if k > 0 && ah[k-1] == a {
+				i.dupTransmissions++
+				continue
+			}
+			dd = append(dd, a)
+		}
+		ah = dd
 	}
 	if i.unsettled != "" {
 		closeReq += i.unsettled
@@ -562,6 +573,15 @@ func (i *impl) exec(op string) string {
 			}
 		}
 		sort.Strings(resent)
+		var uniq []string
+		for k := range resent {
+			if k > 0 && resent[k] == resent[k-1] {
+				i.dupTransmissions++ // the same chunk sent twice on the new transport (identical content): reported once
+				continue
+			}
+			uniq = append(uniq, resent[k])
+		}
+		resent = uniq
 		for k := range resent {
 			resent[k] = strings.TrimLeft(resent[k][:6], "0") + resent[k][6:]
 		}
